@@ -4,7 +4,8 @@ field (per element of a full-forward traversal for collections) and none of
 another lifecycle family.  Shared by C04, C05, C12, C13, C15, C16."""
 from . import anchors as A
 from .facts import AnchorError, Callee
-from .shapes import coverage, Src, SELF, root, traversals
+from .shapes import root, traversals
+from .semcov import coverage, Src, SELF
 from .cfg import INF
 
 RUN = "RUN"
